@@ -1,4 +1,186 @@
-import KpModel.Format.Kdbx4
+import KpModel.Props.C04
+/-!
+# C05 — a KDBX4 file cannot be altered without the key and still open differently
+Property theorems only, over the faithful model of `decrypt_kdbx4` / `read_hmac_block_stream` on
+*arbitrary* bytes.  What the reader accepts was verified: every accepted block under the MAC key of its own
+index (`blocks_authenticated`), the header under the header MAC key (C04).  Under the idealisation that a MAC
+verifies only for what the honest writer authenticated (`Unforgeable`, a hypothesis), the accepted data is a
+prefix of the original blocks; a stream may end without the empty terminator (`unterminated_witness`), which is
+why the full statement needs `PrefixRejects` (see DESIGN.md).
+-/
 namespace Kp.Fmt
-theorem placeholder_C05 : True := trivial
+
+/-- "block `b` was verified at index `i` somewhere in the stream": its MAC under the key of index `i`,
+    followed by its length field and its bytes, occurs in the stream -/
+def Verified (P : Prims) (hk stream : Bytes) (i : Nat) (b : Bytes) : Prop :=
+  ∃ sizeBytes, sizeBytes.length = 4 ∧ le32 sizeBytes = b.length
+    ∧ (blockMac P hk i sizeBytes b ++ sizeBytes ++ b) <:+: stream
+
+/-- every block the reader accepts was verified under the key of its own index, in order, starting at the
+    index the reader started with — for every byte string -/
+theorem blocks_authenticated (P : Prims) (hk : Bytes) (whole : Bytes) :
+    ∀ (fuel : Nat) (pre rest : Bytes) (idx : Nat) (out r : Bytes), whole = pre ++ rest →
+      readBlocks P hk fuel rest idx out = .ok r →
+      ∃ bs : List Bytes, r = out ++ bs.flatten ∧ (∀ b ∈ bs, b ≠ [])
+        ∧ ∀ j (hj : j < bs.length), Verified P hk whole (idx + j) bs[j] := by
+  intro fuel
+  induction fuel with
+  | zero =>
+    intro pre rest idx out r _ h
+    simp only [readBlocks] at h
+    injection h with h
+    exact ⟨[], by simp [h], by simp, by simp⟩
+  | succ fuel ih =>
+    intro pre rest idx out r hw h
+    rw [readBlocks] at h
+    simp only [] at h
+    split at h
+    · injection h with h
+      exact ⟨[], by simp [h], by simp, by simp⟩
+    · split at h
+      · cases h
+      · split at h
+        · cases h
+        · split at h
+          · cases h
+          · rename_i h0 h32 h4 hsz
+            generalize hmac : rest.take 32 = mac at h
+            generalize hsb : (rest.drop 32).take 4 = sizeBytes at h hsz
+            generalize hblock : ((rest.drop 32).drop 4).take (le32 sizeBytes) = block at h
+            split at h
+            · cases h
+            · rename_i hne
+              have hmaceq : mac = blockMac P hk idx sizeBytes block := by
+                simpa using hne
+              have hsbl : sizeBytes.length = 4 := by
+                rw [← hsb, List.length_take]; omega
+              have hbl : block.length = le32 sizeBytes := by
+                rw [← hblock, List.length_take]; omega
+              have hrest : rest = mac ++ sizeBytes ++ block ++ ((rest.drop 32).drop 4).drop (le32 sizeBytes) := by
+                have e1 : mac ++ rest.drop 32 = rest := by rw [← hmac]; exact List.take_append_drop ..
+                have e2 : sizeBytes ++ (rest.drop 32).drop 4 = rest.drop 32 := by
+                  rw [← hsb]; exact List.take_append_drop ..
+                have e3 : block ++ ((rest.drop 32).drop 4).drop (le32 sizeBytes) = (rest.drop 32).drop 4 := by
+                  rw [← hblock]; exact List.take_append_drop ..
+                rw [List.append_assoc, List.append_assoc, e3, e2, e1]
+              split at h
+              · injection h with h
+                exact ⟨[], by simp [h], by simp, by simp⟩
+              · rename_i hz
+                have hw' : whole = (pre ++ (mac ++ sizeBytes ++ block)) ++ ((rest.drop 32).drop 4).drop (le32 sizeBytes) := by
+                  rw [hw]
+                  conv => lhs; rw [hrest]
+                  simp [List.append_assoc]
+                obtain ⟨bs, hr, hnonempty, hver⟩ := ih _ _ (idx + 1) (out ++ block) r hw' h
+                refine ⟨block :: bs, by rw [hr]; simp [List.append_assoc], ?_, ?_⟩
+                · intro b hb
+                  cases hb with
+                  | head => intro hb0; rw [hb0] at hbl; simp at hbl; omega
+                  | tail _ hb' => exact hnonempty b hb'
+                · intro j hj
+                  cases j with
+                  | zero =>
+                    refine ⟨sizeBytes, hsbl, hbl.symm, ?_⟩
+                    simp only [List.getElem_cons_zero, Nat.add_zero]
+                    rw [← hmaceq, hw']
+                    exact ⟨pre, ((rest.drop 32).drop 4).drop (le32 sizeBytes), by simp [List.append_assoc]⟩
+                  | succ j =>
+                    have := hver j (by simp at hj; omega)
+                    simp only [List.getElem_cons_succ]
+                    rw [show idx + (j + 1) = idx + 1 + j by omega]
+                    exact this
+
+/-- the idealisation of HMAC, as a hypothesis about a particular tampered stream: whatever verifies at index `i`
+    is the honest writer's `i`-th block -/
+def Unforgeable (P : Prims) (hk : Bytes) (parts : List Bytes) (stream' : Bytes) : Prop :=
+  ∀ i b, b ≠ [] → Verified P hk stream' i b → parts[i]? = some b
+
+/-- **C05_blocks_prefix**: under `Unforgeable`, whatever the attacker did to the block stream (substituting bytes,
+    swapping, duplicating, dropping, truncating, re-indexing, appending), the data the reader accepts is the
+    concatenation of the first `m` original blocks, for some `m` -/
+theorem C05_blocks_prefix (P : Prims) (hk : Bytes) (parts : List Bytes) (stream' r : Bytes)
+    (hu : Unforgeable P hk parts stream')
+    (h : readBlocks P hk (stream'.length + 1) stream' 0 [] = .ok r) :
+    ∃ m, r = (parts.take m).flatten := by
+  obtain ⟨bs, hr, hne, hver⟩ := blocks_authenticated P hk stream' (stream'.length + 1) [] stream' 0 [] r (by simp) h
+  refine ⟨bs.length, ?_⟩
+  rw [hr, List.nil_append]
+  congr 1
+  apply List.ext_getElem?
+  intro j
+  by_cases hj : j < bs.length
+  · have hv := hver j hj
+    simp only [Nat.zero_add] at hv
+    have hp := hu j bs[j] (hne _ (List.getElem_mem hj)) hv
+    rw [List.getElem?_eq_getElem hj, List.getElem?_take, if_pos hj, hp]
+  · rw [List.getElem?_eq_none (by omega), List.getElem?_take, if_neg hj]
+
+/-- the header: a file that opens carries a header MAC that verifies under the key derived from the file's own
+    header fields and the credentials — for every byte string -/
+theorem C05_header_mac_verified (P : Prims) (data : Bytes) (comp : Bytes) (d : Decrypted)
+    (h : decrypt P data (some comp) = .ok d) :
+    ∃ hdr hstart tk, parseOuterHeader data = .ok (hdr, hstart) ∧ runKdf P hdr.kdf hdr.kdfSeed comp = .ok tk
+      ∧ slice "decrypt_kdbx4:index" data hstart (hstart + 32) = .ok (P.sha256 (data.take hstart))
+      ∧ slice "decrypt_kdbx4:index" data (hstart + 32) (hstart + 64)
+          = .ok (P.hmac256 (blockKey P (P.sha512 (hdr.masterSeed ++ tk ++ [1])) u64Max) (data.take hstart)) := by
+  unfold decrypt at h
+  simp only [bind, Outcome.bind] at h
+  cases hp : parseOuterHeader data with
+  | err e => rw [hp] at h; cases h
+  | panic s => rw [hp] at h; cases h
+  | ok p =>
+    obtain ⟨hdr, hstart⟩ := p
+    rw [hp] at h
+    simp only at h
+    cases hs1 : slice "decrypt_kdbx4:index" data 0 hstart with
+    | err e => rw [hs1] at h; cases h
+    | panic s => rw [hs1] at h; cases h
+    | ok headerData =>
+      rw [hs1] at h; simp only at h
+      cases hs2 : slice "decrypt_kdbx4:index" data hstart (hstart + 32) with
+      | err e => rw [hs2] at h; cases h
+      | panic s => rw [hs2] at h; cases h
+      | ok headerSha =>
+        rw [hs2] at h; simp only at h
+        cases hs3 : slice "decrypt_kdbx4:index" data (hstart + 32) (hstart + 64) with
+        | err e => rw [hs3] at h; cases h
+        | panic s => rw [hs3] at h; cases h
+        | ok headerHmac =>
+          rw [hs3] at h; simp only at h
+          cases hs4 : slice "decrypt_kdbx4:index" data (hstart + 64) data.length with
+          | err e => rw [hs4] at h; cases h
+          | panic s => rw [hs4] at h; cases h
+          | ok stream =>
+            rw [hs4] at h; simp only at h
+            have hhd : headerData = data.take hstart := by
+              unfold slice at hs1
+              split at hs1
+              · injection hs1 with hs1; simp at hs1; exact hs1.symm
+              · cases hs1
+            split at h
+            · cases h
+            · rename_i hsha
+              have hshaeq : headerSha = P.sha256 headerData := by simpa using hsha
+              cases hk : runKdf P hdr.kdf hdr.kdfSeed comp with
+              | err e => rw [hk] at h; cases h
+              | panic s => rw [hk] at h; cases h
+              | ok tk =>
+                rw [hk] at h; simp only at h
+                split at h
+                · cases h
+                · rename_i hm
+                  have hmeq : headerHmac = P.hmac256 (blockKey P (P.sha512 (hdr.masterSeed ++ tk ++ [1])) u64Max) headerData := by
+                    simpa using hm
+                  exact ⟨hdr, hstart, tk, rfl, hk, by rw [← hhd, ← hshaeq]; exact hs2, by rw [← hhd, ← hmeq]; exact hs3⟩
+
+/-- the reader accepts a block stream that ends without the empty terminator block: the reason the full
+    statement of C05 needs the `PrefixRejects` hypothesis on the dependencies (DESIGN.md §7 C05) -/
+def witnessPrims : Prims :=
+  ⟨fun _ => [], fun _ => [], fun _ _ => List.replicate 32 0, fun _ _ _ => [], fun _ _ _ _ _ _ _ => none,
+   fun _ _ _ _ => none, fun _ _ _ _ => none, fun x => x, fun x => some x⟩
+
+theorem unterminated_witness :
+    readBlocks witnessPrims [] 10 (blockBytes witnessPrims [] 0 [7, 7]) 0 [] = .ok [7, 7] := by
+  decide
+
 end Kp.Fmt
